@@ -68,11 +68,16 @@ type Inl struct {
 	X uint16 `serix:"x"`
 }
 
+type EmbP struct {
+	Q uint8 `serix:"q"`
+}
+
 type J5 struct {
-	Emb `serix:""`
-	In  Inl     `serix:",inlined"`
-	Opt *JSmall `serix:"opt,optional"`
-	Sl  []byte  `serix:"sl,omitempty,lenPrefix=uint8"`
+	Emb   `serix:""`
+	*EmbP `serix:""`
+	In    Inl     `serix:",inlined"`
+	Opt   *JSmall `serix:"opt,optional"`
+	Sl    []byte  `serix:"sl,omitempty,lenPrefix=uint8"`
 }
 
 type Shape interface{ isShape() }
@@ -208,7 +213,7 @@ var (
 	sJSmall = st("-", fld("a", "r", "f64"), fld("n", "r", "str 0 0"))
 	sJ3     = st("-", fld("nums", "r", "sl 1 3 f64"), fld("inner", "r", "sl 0 0 "+sJSmall), fld("fix", "r", "arr 3 f64"), fld("strs", "o", "sl 0 0 str 0 0"))
 	sJ4     = st("-", fld("m", "r", "map 0 2 str 0 0 f64"), fld("mu", "r", "map 0 0 u64 str 0 0"), fld("ma", "r", "map 0 0 harr bool"))
-	sJ5     = st("5", "\" e "+st("-", fld("e", "r", "f64")), "\" i "+st("-", fld("x", "r", "f64")), fld("opt", "o", sJSmall), fld("sl", "o", "hex 0 0"))
+	sJ5     = st("5", "\" e "+st("-", fld("e", "r", "f64")), "\" e "+st("-", fld("q", "r", "f64")), "\" i "+st("-", fld("x", "r", "f64")), fld("opt", "o", sJSmall), fld("sl", "o", "hex 0 0"))
 	sCircle = st("1", fld("r", "r", "f64"))
 	sSquare = st("2", fld("s", "r", "str 0 0"))
 	sShape  = "if [ ( 1 " + sCircle + " ) ( 2 " + sSquare + " ) ]"
@@ -329,7 +334,7 @@ var jtargets = []jtarget{
 		return v
 	}},
 	{"J5", sJ5, func() any { return &J5{} }, func(rng *hx.Rng) any {
-		v := &J5{Emb: Emb{E: uint8(rng.U64())}, In: Inl{X: uint16(rng.U64())}, Sl: rbytes(rng, 0, 3)}
+		v := &J5{Emb: Emb{E: uint8(rng.U64())}, EmbP: &EmbP{Q: uint8(rng.U64())}, In: Inl{X: uint16(rng.U64())}, Sl: rbytes(rng, 0, 3)}
 		if rng.Bool() {
 			v.Opt = &JSmall{A: uint16(rng.U64()), N: rstr(rng, 0, 3)}
 		}
